@@ -716,7 +716,8 @@ def complexLoop {F} (env : Env F) (strict : Bool) (head : String) : Nat → Sev 
       let s2 := s1.ws
       let (c2, s3) := s2.peekC
       -- STEPread_error( c, 0, … ): WARNING when the head part has attributes, INPUT_ERROR otherwise; both are merged
-      if c2 != 40 then pure ⟨fin ((err.greater .inputError).greater .warning), ps, s3⟩
+      -- (these two early `return _error.severity()` come before `_error.AppendFromErrorArg( &partErrors )`: `perr` is not merged)
+      if c2 != 40 then pure ⟨(err.greater .inputError).greater .warning, ps, s3⟩
       else
         match ps.find? (·.name == nm), env.dict.entity? nm with
         | some _, some ed =>
@@ -725,7 +726,7 @@ def complexLoop {F} (env : Env F) (strict : Bool) (head : String) : Nat → Sev 
           else
             let psev := if env.cfg.complexMergesParts then r.sev else r.asev
             complexLoop env strict head fuel err (perr.greater psev) (setPart ps nm r.vals) r.s.ws
-        | _, _ => pure ⟨fin ((err.greater .inputError).greater .warning), ps, s3⟩
+        | _, _ => pure ⟨(err.greater .inputError).greater .warning, ps, s3⟩
 
 /-- `STEPcomplex::STEPread` -/
 def complexSTEPread {F} (env : Env F) (strict : Bool) (ps : List (MPart F)) (s : IStream) : M (CR F) := do
